@@ -816,6 +816,23 @@ func (e *Engine) explore(st *State) {
 			t.blk, t.idx = succ, 0
 			continue
 		case *ssa.Return:
+			// constant boolean results of an inlined call become known predicates of the
+			// caller (`cont := helper(...)`; `if !cont { return }`)
+			if call, ok := fc.site.(*ssa.Call); ok && fc.parent != nil && !t.deferred {
+				for i, rv := range in.Results {
+					k, ok := rv.(*ssa.Const)
+					if !ok || k.Value == nil || !isBoolConst(k) {
+						continue
+					}
+					key := "v:" + fc.parent.id + ":" + call.Name()
+					if len(in.Results) > 1 {
+						key += fmt.Sprintf("#%d", i)
+					}
+					if e.rule.PredOK(key) {
+						st.pi[key] = k.Value.ExactString() == "true"
+					}
+				}
+			}
 			if !e.popFrame(st, false) {
 				return
 			}
@@ -872,6 +889,11 @@ func (e *Engine) explore(st *State) {
 			continue
 		}
 	}
+}
+
+func isBoolConst(k *ssa.Const) bool {
+	b, ok := k.Type().Underlying().(*types.Basic)
+	return ok && b.Info()&types.IsBoolean != 0
 }
 
 func isIdentChar(c byte) bool {
